@@ -140,7 +140,10 @@ def run(ck, binary, run_impl, replay):
                          "sha3-256", "sha3-512"):
                 hashes.append({"k": "bytes", "f": "hash", "hex": s.hex(), "extra": {"algo": algo}})
             if i < 6:
-                for algo in ("xxh3", "crc32", "no-such-algo", "", "MD5"):
+                # names of PHP's hash_algos() that hash.go does not implement, and non-names: refusal required
+                for algo in ("xxh3", "xxh32", "xxh64", "xxh128", "crc32", "crc32b", "crc32c", "md4", "md2", "sha224", "sha384",
+                             "sha512/256", "sha3-224", "sha3-384", "ripemd160", "whirlpool", "adler32", "fnv132", "joaat", "murmur3a",
+                             "no-such-algo", "", "MD5", "sha256 "):
                     hashes.append({"k": "bytes", "f": "hash", "hex": s.hex(), "extra": {"algo": algo, "expect": "throw"}})
 
     def strip(c):
